@@ -13,6 +13,8 @@ import json, os, shutil, subprocess, sys, time
 
 VERIF = os.path.dirname(os.path.dirname(os.path.abspath(__file__)))
 WT = os.environ.get("TRYSEED_WT", "/tmp/mut")
+TAG = os.environ.get("TRYSEED_TAG", "")
+RPL = "/tmp/seedreplays" + TAG
 ENV = dict(os.environ, GOFLAGS="-mod=mod", GOPROXY="off", GOSUMDB="off", GOTOOLCHAIN="local")
 
 
@@ -98,7 +100,7 @@ def main():
             return 2
         for p in props:
             t0 = time.time()
-            r = subprocess.run([os.path.join(VERIF, "run"), p, "--tier", tier], env=dict(os.environ, VERIF_REPLAY_DIR="/tmp/seedreplays", VERIF_EVIDENCE_DIR="/tmp/seedevidence", VERIF_REPO=target),
+            r = subprocess.run([os.path.join(VERIF, "run"), p, "--tier", tier], env=dict(os.environ, VERIF_REPLAY_DIR=RPL, VERIF_EVIDENCE_DIR="/tmp/seedevidence"+TAG, VERIF_REPO=target),
                                text=True, errors="replace", stdout=subprocess.PIPE, stderr=subprocess.PIPE)
             verdict = {0: "missed", 1: "caught", 2: "inconclusive"}.get(r.returncode, str(r.returncode))
             first = ""
@@ -113,7 +115,7 @@ def main():
                 print(r.stderr[-1200:])
     finally:
         sh("git -C %s checkout -- ." % target)
-        shutil.rmtree("/tmp/seedreplays", ignore_errors=True)
+        shutil.rmtree(RPL, ignore_errors=True)
     meta["results"] = results
     print(json.dumps(meta, indent=1))
     out = os.path.join(VERIF, "seeded", "%s-%s%s" % (pid, letter, suffix))
